@@ -108,19 +108,48 @@ def actual_of(g):
     return tree, cells(root), len(nodes), len(g.get("edges", [])), [o["name"] for o in nodes.values()], used_edges[0], portless
 
 
+def share_equal_subtables(chain):
+    """A copy of the chain dictionary in which equal sub-chains are the *same* dict object wherever they occur -> (copy, number of re-used objects)."""
+    memo, reused = {}, [0]
+
+    def walk(node):
+        (m, modes), = node.items()
+        key = json.dumps(node, sort_keys=True, default=repr)
+        if key in memo:
+            reused[0] += 1
+            return memo[key]
+        new = {m: [{**mode, "fs": [walk(d) if isinstance(d, dict) else d for d in mode["fs"]]} for mode in modes]}
+        memo[key] = new
+        return new
+
+    return walk(chain), reused[0]
+
+
 def check(ctx, chain, workload, wit_extra=None):
     from decaylanguage import DecayChainViewer  # noqa: PLC0415
 
     m, exp, nlines = expected_of(chain)
     wit = {"kind": "graph", "chain": chain, **(wit_extra or {})}
     ctx.case(chain, nlines >= 2, workload)
+    given = chain
+    if _ngraphs[0] % 3 == 2:
+        # the dictionary as a caller builds it by hand or from a cache: equal sub-tables (the same decaying particle in several places) are one shared object
+        given, nshared = share_equal_subtables(chain)
+        if nshared:
+            ctx.hit("chain-dictionary-with-shared-sub-table-objects")
+
     def make():
+        if _ngraphs[0] % 7 == 2:
+            # graph / node / edge attributes handed through to graphviz (the README's and the tests' `graph_attr={"rankdir": ...}`)
+            ctx.hit("viewer-with-graph-node-edge-attributes")
+            rd = ("TB", "BT", "RL", "LR")[(_ngraphs[0] // 7) % 4]
+            return DecayChainViewer(given, graph_attr={"rankdir": rd}, node_attr={"fontsize": "9"}, edge_attr={"fontsize": "8"}).to_string()
         if _ngraphs[0] % 5 == 1:
             # constructor options of the README (`name=`, `format=`) and graph attributes: the identifiers stay unique all the same
             ctx.hit("viewer-with-name-and-format-options")
-            return DecayChainViewer(chain, name=("TEST", "OtherGraph")[_ngraphs[0] % 2], format="pdf").to_string()
+            return DecayChainViewer(given, name=("TEST", "OtherGraph")[_ngraphs[0] % 2], format="pdf").to_string()
         if _ngraphs[0] % 4 != 3:
-            return DecayChainViewer(chain).to_string()
+            return DecayChainViewer(given).to_string()
         # every fourth graph of the session is made in a worker thread (joined at once: no concurrency, only another thread of the same process)
         import threading  # noqa: PLC0415
 
@@ -128,7 +157,7 @@ def check(ctx, chain, workload, wit_extra=None):
 
         def work():
             try:
-                box["src"] = DecayChainViewer(chain).to_string()
+                box["src"] = DecayChainViewer(given).to_string()
             except BaseException as e:  # noqa: BLE001
                 box["err"] = e
 
